@@ -7,13 +7,14 @@
 
   request : {"stations":[str], "has_matrix":bool, "cols":n, "M":[[bits]], "lims":[bits],
              "cids":[str], "c_net":[bits], "s_net":[bits], "c_alg":[bits], "s_alg":[bits],
-             "voltages":[bits], "net_vt":bits, "net_rt":bits, "vt":bits|null, "rt":bits|null,
+             "voltages":[bits], "net_vt":bits|null, "net_rt":bits|null (null = constructor defaults, Gen.Consts), "vt":bits|null, "rt":bits|null,
              "sched":[[str,[bits]]] | null, "S":[[bits]] | null, "x":[bits] | null}
   The phasor coordinates are the implementation's own doubles (`np.exp(1j·deg2rad φ)` for the
   network side, `np.cos/np.sin(deg2rad φ)` for the algorithm side), computed by the harness.
 -/
 import AcnModel.Wire
 import AcnModel.Feas
+import AcnModel.Gen.Consts
 open Lean Acn Acn.Wire Acn.Feas
 
 def jRes : Except FeasErr Bool → Json
@@ -38,7 +39,8 @@ def handle (j : Json) : Except String Json := do
   let net : Net Float := {
     stations, c := (← getFs j "c_net"), s := (← getFs j "s_net"), voltages := (← getFs j "voltages"),
     matrix := if hasM then some { cols, rows } else none, lims, cids,
-    vt := (← getF j "net_vt"), rt := (← getF j "net_rt") }
+    vt := (← getOpt j "net_vt" asF).getD (fOfBits Acn.Gen.netAbsTolBits),
+    rt := (← getOpt j "net_rt" asF).getD (fOfBits Acn.Gen.netRelTolBits) }
   let netAlg : Net Float := { net with c := (← getFs j "c_alg"), s := (← getFs j "s_alg") }
   let vt? ← getOpt j "vt" asF
   let rt? ← getOpt j "rt" asF
